@@ -146,13 +146,30 @@ func (w *World) KubeletFlap(key string) bool {
 	return true
 }
 
+// KubeletFlapPending: a Pod that was running reports phase Pending without
+// container statuses for a while (e.g. its node rebooted and the containers are
+// being re-created); the Pod has begun running all the same.
+func (w *World) KubeletFlapPending(key string) bool {
+	w.asKubelet()
+	p := w.pod(key)
+	if p == nil || p.Status.Phase != corev1.PodRunning || len(p.Status.ContainerStatuses) == 0 || p.DeletionTimestamp != nil {
+		return false
+	}
+	p.Status.Phase = corev1.PodPending
+	p.Status.ContainerStatuses = nil
+	w.writePodStatus(p)
+	return true
+}
+
 // ... and KubeletUnflap brings them back with the original start time.
 func (w *World) KubeletUnflap(key string) bool {
 	w.asKubelet()
 	p := w.pod(key)
-	if p == nil || p.Status.Phase != corev1.PodRunning || len(p.Status.ContainerStatuses) != 0 || p.Status.StartTime == nil {
+	flappedPending := p != nil && p.Status.Phase == corev1.PodPending && p.Status.StartTime != nil
+	if p == nil || (p.Status.Phase != corev1.PodRunning && !flappedPending) || len(p.Status.ContainerStatuses) != 0 || p.Status.StartTime == nil {
 		return false
 	}
+	p.Status.Phase = corev1.PodRunning
 	p.Status.ContainerStatuses = []corev1.ContainerStatus{{Name: mainContainerName(p), State: corev1.ContainerState{Running: &corev1.ContainerStateRunning{StartedAt: *p.Status.StartTime}}}}
 	w.writePodStatus(p)
 	return true
